@@ -221,6 +221,10 @@ pub async fn negotiate(off: &mut Peer, ans: &mut Peer, k: &PcKnobs, ctx: &Ctx) -
     tokio::time::sleep(sig_delay).await; // signaling latency: offer in transit
     ans.pc.set_remote_description(offer_rx).await.map_err(|e| format!("{} set_remote(offer): {e}", ans.name))?;
     ans.add_media(k);
+    if k.has_dc() && ctx.plan.knob("dc_inband", 0) == 2 {
+        // the answering application opens an in-band channel of its own after applying the offer and before answering
+        ans.add_dc(false);
+    }
     tokio::time::sleep(sig_delay).await; // the application takes its time before answering
     let _ = ans.pc.create_answer().await.map_err(|e| format!("{} create_answer: {e}", ans.name))?;
     ans.pc.wait_for_gathering_complete().await;
